@@ -503,7 +503,7 @@ def meta(tier):
         "one structured routine fed mappings, instances and subclass instances; builds) plus the environment moves mutate-results, mutate-inputs, clear-caches; "
         f"EVERY sequence of length <= {D['full']} over the whole alphabet, every sequence of length <= {D['related']} whose probe (last operation) has an operation of its own family or an environment move before it, "
         f"and every family-local sequence (family + environment moves) up to length {D['local']} (the first {FAM_CAP[tier]} operations of a family) is replayed from the cold state and "
-        "EVERY operation in it is judged: canonical outcome == outcome of that operation alone in the cold state, input unchanged, result containers disjoint from earlier results and other calls' inputs; "
+        "EVERY operation in it is judged: canonical outcome == outcome of that operation alone in the cold state, input unchanged, result containers disjoint from earlier results and other calls' inputs, and what a marshal call returned does not change when the value it was given is mutated afterwards; "
         "additionally every operation's cold outcome is compared with its outcome in a freshly spawned interpreter; states are identified with histories (cache contents cannot be hashed); "
         "non-trivial = the operation returned; distinct by (history)",
         "bounds": {"alphabet": [o.name for o in ops], "full_depth": D["full"], "related_depth": D["related"], "family_depth": D["local"], "family_ops_in_deeper_histories": FAM_CAP[tier]},
